@@ -24,10 +24,14 @@ from vlib.models import c11_completion as M
 
 PID = 'C11'
 META = {
-    'engine': 'E2 funcmon',
+    'engine': 'E2 funcmon + E1 schedmon',
     'level': 'exploration',
     'technique': 'post-condition monitor on TaskOutputs.is_complete() over '
-                 'all output subsets against an independent completion model',
+                 'all output subsets against an independent completion '
+                 'model; plus a pool monitor in real scheduler runs: every '
+                 'removal of a finished task and every finished task still '
+                 'pooled after an iteration judged by the ground-truth '
+                 'completion rule',
     'level_text': (
         'Task definitions are enumerated (every graph-declarable optionality '
         'pattern of the six standard outputs x up to three custom outputs '
@@ -38,11 +42,16 @@ META = {
         'by the real WorkflowConfig from generated flow.cylc files '
         '(including awkward but legal output names). For each, every subset '
         'of outputs is completed on a real TaskOutputs and is_complete() is '
-        'compared with the model. Held = no disagreement on what was '
-        'explored.'),
-    'level_note': 'Model vlib/models/c11_completion.py (Appendix E.2) is '
-                  'trusted. Function-level half only: removal from the pool '
-                  'is checked by the E1 half.',
+        'compared with the model. E1 half: generated workflows with '
+        'optional/required standard and custom outputs, failing and '
+        'submit-failing jobs, holds, pauses, reloads and triggers '
+        '(including --wait) run in the real scheduler; a finished task '
+        'removed as complete must be ground-truth complete, and a finished '
+        'task still in the pool after the iteration must be ground-truth '
+        'incomplete (tasks touched by set/remove/kill excepted). Held = no '
+        'disagreement on what was explored.'),
+    'level_note': 'Model vlib/models/c11_completion.py (Appendix E.2) and '
+                  'the wfgen ground truth are trusted.',
     'design_ref': 'DESIGN.md §5 C11, Appendix E.2',
     'budget': {'quick': 120, 'thorough': 900},
 }
@@ -83,6 +92,8 @@ MIN = {
         'defs_succ_opt': 300, 'defs_sub_opt': 300, 'defs_exp_opt': 300,
         'defs_custom_required': 300, 'chain_evals': 10000,
         'hostile_name_cases': 30,
+        'c11.removals_checked': 1500, 'c11.retained_checked': 300,
+        'c11.retained_checked_flow_wait': 5,
     },
     'thorough': {
         'is_complete_evals': 2500000, 'defs_default_direct': 7200,
@@ -91,6 +102,8 @@ MIN = {
         'defs_succ_opt': 1000, 'defs_sub_opt': 1000, 'defs_exp_opt': 1000,
         'defs_custom_required': 1000, 'chain_evals': 50000,
         'hostile_name_cases': 300,
+        'c11.removals_checked': 15000, 'c11.retained_checked': 3000,
+        'c11.retained_checked_flow_wait': 50,
     },
 }
 NCASES = {'quick': 96, 'thorough': 768}
@@ -115,8 +128,11 @@ def setup_shard(ctx):
     _BOX = box
 
 
+E1_CASES = {'quick': 400, 'thorough': 4000}
+
+
 def ncases(tier):
-    return NCASES[tier]
+    return NCASES[tier] + E1_CASES[tier]
 
 
 # ---------------------------------------------------------------------------
@@ -441,7 +457,12 @@ def config_def(ctx, i, j, rng):
 
 
 def run_case(ctx, i, rng):
-    n = ncases(ctx.tier)
+    n = NCASES[ctx.tier]
+    if i >= n:
+        # retention observed in running schedulers (E1 half)
+        from vlib.e1 import c11e1
+        c11e1.run_case(ctx, i - n, rng, PID)
+        return
     for idx in range(i, len(_BOX), n):
         k = len(_BOX[idx][1])
         if ctx.tier == 'quick' and rng.random() >= QUICK_FRACTION[k]:
